@@ -1,7 +1,7 @@
 (* C10/Properties.v — streamed parsing ignores chunking; the callback gets every byte.
    Statements only; proofs in C09/Proofs.v and C10/Proofs.v.  [drive], [spec]: C09/Model.v. *)
 From Coq Require Import ZArith List Bool.
-From RM Require Import Base.Word C08.Model C11.Model C09.Model C09.Grammar C09.Driver C09.Proofs C09.ProofsBytes C10.Model C10.Proofs C10.ProofsCache C10.ProofsAsync C09.ProofsFinish C09.ProofsFinal C10.Stream C10.ProofsStream C10.Driver C10.ProofsStreamTrace C10.ProofsBound.
+From RM Require Import Base.Word C08.Model C11.Model C09.Model C09.Grammar C09.Driver C09.Proofs C09.ProofsBytes C10.Model C10.Proofs C10.ProofsCache C10.ProofsAsync C09.ProofsFinish C09.ProofsFinal C10.Stream C10.ProofsStream C10.Driver C10.ProofsStreamTrace C10.ProofsBound C10.OldRefill.
 From RM Require Gen.C10Stream.
 From RM Require C09.Pins.
 Import ListNotations.
@@ -335,3 +335,29 @@ Theorem c10_band_top_dependent :
     zlen (t_files t1) <> zlen (t_files t2).
 Proof. exact band_top_dependent. Qed.
 Print Assumptions c10_band_top_dependent.
+
+(* parse_async on the real symbol table: any non-failing body (chunks of any size, empty chunks anywhere) delivering an input
+   whose lines are shorter than 80 KiB ends with the schedule-free verdict; the verdict is a table or an error, never a
+   panic of finish(); the callback got a prefix and, when it is a table, everything. *)
+Theorem c10_stream_table_chunk_independent :
+  forall (lines : list rle) (tail : Z) (script : list sev),
+    short_lines cllen lines tail -> delivered script = input_len rle cllen lines tail -> fails script = false ->
+    exists t x, table_of (spec_c lines tail) = Ret t /\
+                drive_stream_c lines tail script = Ret (spec_c lines tail, x) /\
+                cbsum (core x) = total (core x) /\ (t <> None -> cbsum (core x) = input_len rle cllen lines tail).
+Proof. exact stream_table. Qed.
+Print Assumptions c10_stream_table_chunk_independent.
+
+(* F-C10c, stated on the model of the loop as it was before the fix ([step_stream_old]: the refill block takes one chunk,
+   empty or not): `MODULE a b c d / FILE 1 x / PUBLIC 20 0 g` as chunks [15; EMPTY; 23] — old loop: Ok, callback 15 of 38
+   bytes, no FILE, no PUBLIC; fixed loop ([drive_stream]): Ok, 38 bytes, both records.  The same witness was replayed on the
+   real parse_async before and after the fix (corpus/C10/cases.txt). *)
+Theorem c10_old_refill_refuted :
+  let script := [SChunk 15; SChunk 0; SChunk 23] in
+  short_lines cllen f10c_lines 0 /\ delivered script = input_len rle cllen f10c_lines 0 /\ fails script = false /\
+  (exists p x t, iter_old 20 (init_stream rle cllen pst init_pst f10c_lines 0 script) = SDone (ROk p) x /\
+                 cbsum (core x) = 15 /\ table_of (ROk p) = Ret (Some t) /\ zlen (t_files t) = 0 /\ zlen (t_publics t) = 0) /\
+  (exists p x t, drive_stream rle cllen pst init_pst recog_pst bump_pst lineno_pst f10c_lines 0 script = Ret (ROk p, x) /\
+                 cbsum (core x) = 38 /\ table_of (ROk p) = Ret (Some t) /\ zlen (t_files t) = 1 /\ zlen (t_publics t) = 1).
+Proof. exact old_refill_refuted. Qed.
+Print Assumptions c10_old_refill_refuted.
